@@ -19,6 +19,14 @@ checks = {
    text="Exhaustive BFS over histories of APPEND (same and different bytes, to INBOX / another mailbox / the recovery mailbox), explorer-chosen remote answers (create-message ok / fail / fail-size) bounded by a deviation count, COPY/MOVE out of the recovery mailbox, EXPUNGE there, forbidden namespace operations on it (mixed case), LIST and server RESTART; after every transition: OK => message in the target under the announced UID, non-size NO => exact bytes in the recovery mailbox once per distinct message, the recovery mailbox is listed iff non-empty, forbidden operations refused.",
    note="Bounds: depth 4 / 5, at most 2 / 3 injected remote failures per history.",
    technique="explicit-state BFS over event histories with a fault alphabet (deviation-bounded)", design="3/C20"),
+ "C07": dict(level="fault_enumeration", engine="CRASH",
+   text="For every operation (APPEND, COPY, MOVE, STORE, EXPUNGE, CREATE, DELETE, RENAME incl. INBOX, SUBSCRIBE/UNSUBSCRIBE, connector batch creation / message replacement / deletion / move, logout purging a message marked for deletion) the message store and the database interface of a real server are wrapped (wrappers generated from /repo/db/ops*.go at build time, all 69 methods) so that every store call, every database call, every commit and the point right after it is a numbered step; for EVERY step the process is SIGKILLed or the step returns an error; the server is then restarted in another process on the same directories and each mailbox must be in the state before or after the operation (after, if the client saw OK), every listed message must have its exact bytes, no message that exists before and after may vanish, no unreferenced cache file or deletion mark may remain, and a failing step must not kill or wedge the server.",
+   note="Process death and failing steps are enumerated; power loss (dropped unsynced pages) is not. Quick: 7 operations (one per mechanism); thorough: all 16.",
+   technique="exhaustive crash-point / failing-step enumeration with restart in a fresh process", design="3/C07"),
+ "C08": dict(level="model_checking", engine="ENUM",
+   text="The real SQLite index is driven through the public db interface against an in-memory relational model: all 69 methods over tiny argument domains, ALL committed operation sequences of length <=2 (quick) / <=3-4 (thorough) over a 146-instance write alphabet from 4 seed states with result and full read-back (all 40 read methods) compared after every operation; every operation and in-transaction pair additionally aborted (read-back must equal the pre-state); every list-valued argument at lengths {0,1,2,L/2-1..L/2+1,L-1..L+1,2L-1..2L+1} around the statement-batching limit L.",
+   note="Out-of-precondition calls (unknown ids, adding twice, ...) accept 'error without trace' or 'model effect'. A reflection check makes the run an engine error if the harness stops covering exactly the interface's methods.",
+   technique="explicit-state exploration of operation sequences of the implementation against a relational reference model", design="3/C08"),
  "C09": dict(level="fault_enumeration", engine="ENUM",
    text="Bounded-exhaustive enumeration on the real store: every size around every multiple of the cipher block size x compressibility x scenario (fresh, overwrite, neighbour untouched, delete, list, failing writer), and for reference files EVERY truncation length and EVERY single-byte alteration, block-level operations and foreign passphrases; oracle: Get returns exactly the stored bytes or an error.",
    note="Sequential part only so far (the interleaving part is listed in DESIGN.md as pending). crypto/rand is pinned while base files are written so that files are byte-identical in every run.",
@@ -79,6 +87,7 @@ m = {
  },
  "engines": [
    {"name": "ENUM", "path": "checks/enum.go", "serves_properties": [k for k,v in checks.items() if v["engine"]=="ENUM"], "kind_free_text": "bounded-exhaustive enumeration of inputs / faults, executed in worker child processes against the real code; a chunk whose worker dies is bisected to the single case"},
+   {"name": "CRASH", "path": "engine/crash + scen/crash07 + tools/gendbwrap", "serves_properties": ["C07"], "kind_free_text": "step-boundary enumeration: generated wrappers make every store / db-interface call and commit a numbered step; each (operation, step, kill|error) runs in a child process and is checked after a restart in another process"},
    {"name": "E1", "path": "engine/explore", "serves_properties": [k for k,v in checks.items() if v["engine"]=="E1"], "kind_free_text": "explicit-state BFS over event histories of a real gluon.Server (in-memory listener, harness connector, hold/deliver hooks); successors by replay in worker child processes; canonical-state hashing; violations re-run 5x and delta-minimised"},
  ],
  "checks": [],
